@@ -306,7 +306,31 @@ def rule_r5(ctx, rep):
         rep.oblige(("R5", "merge", norm(n)), ok)
         if not ok:
             rep.add("R5", fi.qname, n, "the ids of a child subtree are merged into the register without testing each of them against it first", fi.loc(n))
-    rep.floor("entries into the id register", 2)
+    # every element's id enters the register: the entry may depend on the element (has it an id?) and on the register
+    # (is the id already there?), not on anything else the caller passes in
+    from ..condeval import enclosing_ifs
+    nodep = fi.params[0]
+    own = {nodep, reg}
+    for _ in range(4):
+        for n in ast.walk(fi.node):
+            if isinstance(n, ast.Assign) and all(isinstance(x, ast.Name) and x.id in own or not isinstance(x, ast.Name) or x.id in ("None", "True", "False", "str", "len")
+                                                 for x in ast.walk(n.value) if isinstance(x, ast.Name) and isinstance(x.ctx, ast.Load)):
+                for t in n.targets:
+                    for x in ast.walk(t):
+                        if isinstance(x, ast.Name) and isinstance(x.ctx, ast.Store):
+                            own.add(x.id)
+            if isinstance(n, ast.For) and all(x.id in own for x in ast.walk(n.iter) if isinstance(x, ast.Name) and isinstance(x.ctx, ast.Load)):
+                for x in ast.walk(n.target):
+                    if isinstance(x, ast.Name):
+                        own.add(x.id)
+    for (n, key) in stores:
+        for (g, _b) in enclosing_ifs(fi, n):
+            foreign = sorted({x.id for x in ast.walk(g.test) if isinstance(x, ast.Name) and x.id not in own and x.id in fi.params})
+            rep.oblige(("R5", "unconditional", norm(n), norm(g.test)[:40]), not foreign)
+            if foreign:
+                rep.add("R5", fi.qname, g.test, f"whether an element's id is registered depends on `{', '.join(foreign)}`: ids that are not registered "
+                        f"are not checked for duplicates, so an id used twice no longer raises ValueError", fi.loc(g))
+    rep.floor("entries into the id register", 1)
 
 
 def run(ctx, rep):
